@@ -311,7 +311,7 @@ def main():
     conf_limit = spec.get("conformance_limit", 8 if tier == "quick" else 40)
     for r in results:
         for cid, sc in sorted((r.get("cover_models") or {}).items()):
-            if sc is None or conf_ok + conf_bad >= conf_limit or "(feasibility unknown)" in cid:
+            if sc is None or conf_ok + conf_bad >= conf_limit or "(feasibility unknown)" in cid or cid in spec.get("conformance_skip", []):
                 continue
             sc = dict(sc, pkg=r["pkg"])
             path = os.path.join(evdir, "replay", "%s-cover-%s.json" % (prop, re.sub(r"[^A-Za-z0-9_.-]", "_", cid)))
